@@ -136,4 +136,49 @@ ROUND3: dict[str, str] = {
 for _pid, _text in ROUND3.items():
     META[_pid]["level"] += " " + _text
 
+# Robustness rounds (DESIGN.md 9.10-9.13): how the rules read the code, and where an engine enumerates instead of
+# quantifying.  Appended to the level texts; the technique field names the deciding method.
+ROUND4: dict[str, str] = {
+    "C01": "How it reads the code: the anchored functions are analysed in their effective form (private helpers spliced in, aliases of self.<path> resolved); symbol names are read as skeletons (f-string / + / % / format / join); a name or mapping the rules cannot read gives exit 2.",
+    "C02": "How it reads the code: the fold chain and the group key are evaluated into structural terms (one generic element per loop, helpers / generators / map / reduce followed) and the VALUES that reach amplitudes / components / intensity are judged; an incompletely followed value gives exit 2.",
+    "C03": "How it reads the code: one generic iteration per loop, helper bodies substituted into branch conditions, sequences and products brought into one normal form each; path facts decide the control dependence.",
+    "C04": "How it reads the code: term evaluation of the convention (a NamedTuple result is read positionally), abstract evaluation of the rotation chain (shared with C05), data flow of the adapter's producers.",
+    "C05": "How it reads the code: abstract evaluation into structural terms (while / recursion / table-driven loops give one value); the boost and rotation chains are additionally unrolled for explicit chain lengths 1..3 - for those the verdict is per length, not for all lengths.",
+    "C06": "How it reads the code: dataflow / alias / effect rules on the call graph; the scratch state may be re-initialised by reset() or by binding a fresh instance; a write to a parameter is judged at its call sites.",
+    "C07": "How it reads the code: producers by data flow into the returned mapping; component indices through module constants (literals, tuples, range(n)).",
+    "C08": "How it reads the code: printer methods are evaluated on an abstract printer and the produced TEXT is parsed (matrix layout, einsum contraction strings as a tensor network for 1..4 operands); what a constructed repository class prints as is taken from its own printer method.",
+    "C09": "How it reads the code: the matrix builders and formulate() are evaluated into non-commutative matrix terms of symbolic dimension (entry pattern [i, j]); wiring rules use explicit 2x2 matrices (n = 2 only).",
+    "C10": "How it reads the code: as C09; R-FORWARD reads keyword, positional, **mapping and starred arguments (tuple displays, the starred rest of an unpacking of self.args, constant slices).",
+    "C11": "How it reads the code: formulas are compared after every application of a repository expression class is replaced by what its evaluate() builds; the printers of ComplexSqrt are evaluated on an abstract printer.",
+    "C12": "How it reads the code: builders through their public __call__ under the four flag combinations (enumerated); parameter symbols are identified by name.",
+    "C13": "How it reads the code: selector and __formulate_dynamics are evaluated abstractly and judged on their effects (which key/value pairs reach the store under which conditions).",
+    "C14": "How it reads the code: the @unevaluated decorator is interpreted (abstract interpretation over model objects: kinds and known attributes, never SymPy objects; nothing is executed) on model classes with 0-3 fields in every SymPy / non-SymPy signature (plus single classes with 4 and 5 fields), then every installed hook on model instances for every combination of a finite domain of field kinds x rule kinds x hints. Exhaustive over that domain; the models of the SymPy / dataclasses / inspect / copy entry points are part of the trusted base.",
+    "C15": "How it reads the code: the pickle hooks are interpreted on the same model objects as C14; arities of hand-written __new__ by sequence-length analysis (displays, sympify, starred unpacking).",
+    "C16": "How it reads the code: path enumeration with typestate (load, key, verified, final, tmp); a deleted path is judged by its origin (own temporary vs directory listing), followed to callers.",
+    "C17": "How it reads the code: field values and the mapping in closed form (helper calls replaced by the value they return; the rebuild may sit in a helper that receives the mapping; identity-then-overwrite is a normal form); the symbol universe by a small abstract interpreter (generator methods included).",
+    "C18": "How it reads the code: cleanup on atomised guards with a three-valued pool-size domain; substitutions in closed form.",
+    "C19": "How it reads the code: rows by constant propagation over all 125 index triples (enumerated); validating helpers are evaluated for those constants.",
+    "C20": "How it reads the code: polynomial normal form; records (NamedTuple / dataclass) and their methods are evaluated.",
+}
+for _pid, _text in ROUND4.items():
+    META[_pid]["level"] += " " + _text
+
+TECHNIQUE_SUFFIX = {
+    "C02": "; abstract evaluation of the fold chain into structural terms (sa/symex.py)",
+    "C04": "; abstract evaluation of the rotation chain into structural terms",
+    "C05": "; abstract evaluation into structural terms with bounded unrolling (chain lengths 1..3) for the chain rules",
+    "C08": "; evaluation of printer methods on an abstract printer, parsing of the generated text",
+    "C09": "; abstract interpretation of the matrix builders into non-commutative matrix terms (symbolic dimension; dense n = 2 for wiring)",
+    "C10": "; abstract interpretation of the builders into non-commutative matrix terms",
+    "C13": "; abstract evaluation of the selector judged on store effects",
+    "C14": "; abstract interpretation of the decorator and its hooks over model objects (finite domain of field and rule kinds, exhaustively enumerated)",
+    "C15": "; abstract interpretation of the pickle hooks over model objects; sequence-length analysis",
+    "C17": "; closed forms by call inlining; abstract interpretation of the symbol universe",
+}
+for _pid, _text in TECHNIQUE_SUFFIX.items():
+    META[_pid]["technique"] += _text
+
+for _pid in META:
+    META[_pid]["note"] += " Verdicts are three-valued: a violation is reported only with positive evidence; code in a shape a rule cannot read makes the check exit 2 (ANALYSIS-ERROR), never pass."
+
 NOT_APPLICABLE: dict[str, str] = {}
